@@ -143,6 +143,13 @@ fn load(dir: &Path, req: &Value, settings: &mut Settings) -> Res<TxnData> {
             let paths = tackler_rs::get_paths_by_ext(&dir.join("in").join(sub), ext)?;
             parser::paths_to_txns(&paths, settings)
         }
+        "fsabs" => {
+            // an existing directory (e.g. a checkout made by the caller)
+            let root = req.get("fs_abs").and_then(|x| x.as_str()).unwrap_or("");
+            let ext = req.get("fs_ext").and_then(|x| x.as_str()).unwrap_or("txn");
+            let paths = tackler_rs::get_paths_by_ext(Path::new(root), ext)?;
+            parser::paths_to_txns(&paths, settings)
+        }
         "git" => {
             let repo = req.get("git_repo").and_then(|x| x.as_str()).unwrap_or("");
             let gdir = req.get("git_dir").and_then(|x| x.as_str()).unwrap_or("");
